@@ -39,7 +39,10 @@
 #include "libks/buffer.h"
 #include "libks/vector.h"
 
-#define MAXSCOPE 64
+#define MAXSCOPE 128
+/* blocks above this size (requests of 2^31 .. 2^32 bytes) are located, aligned and shaped like any other but have
+ * no shadow copy and take no part in the checksums: nothing writes to them */
+#define NOSHADOW_ABOVE ((size_t)1 << 28)
 #define MAXBLK 8192
 #define MAXLABEL 8192
 #define MAXOBJ 256
@@ -172,7 +175,7 @@ print_sums(void)
 		for (i = 0; i < A->nblk; i++) {
 			struct blk *b = &A->blks[i];
 
-			if (!b->live || (b->obj != -1 && b->obj == cur_obj))
+			if (!b->live || (b->obj != -1 && b->obj == cur_obj) || b->shadow == NULL)
 				continue;
 			sa = cks(sa ^ (uint64_t)i, (unsigned char *)b->ptr, b->size);
 			ss = cks(ss ^ (uint64_t)i, b->shadow, b->size);
@@ -195,6 +198,9 @@ static void
 snapshot(struct blk *b)
 {
 	free(b->shadow);
+	b->shadow = NULL;
+	if (b->size > NOSHADOW_ABOVE)
+		return;
 	b->shadow = malloc(b->size > 0 ? b->size : 1);
 	if (b->shadow == NULL)
 		die("malloc shadow");
@@ -352,6 +358,8 @@ do_realloc(struct ar *A, int k, int h, size_t mis, size_t old, size_t new)
 	if (ob != NULL && mis == 0) {
 		if (n > ob->size)
 			n = ob->size;
+		if (n > NOSHADOW_ABOVE)
+			n = NOSHADOW_ABOVE;
 		before = malloc(n > 0 ? n : 1);
 		if (before == NULL)
 			die("malloc");
@@ -466,7 +474,7 @@ num(char **tok, int *i, int n)
 static void
 exec_op(char **tok, int n)
 {
-	static unsigned char data[1 << 16];
+	static unsigned char data[(1 << 17) + 2];	/* strings of up to 128 KiB */
 	struct ar *A;
 	int i = 0, ai, k, j;
 	const char *op;
@@ -625,7 +633,7 @@ exec_op(char **tok, int n)
 		printf("%d F %d %zu %zu %d", ai, h, off, len, v);
 		fflush(stdout);
 		memset(b->ptr + off, v, len);
-		if (b->live && off + len <= b->size)
+		if (b->live && b->shadow != NULL && off + len <= b->size)
 			memset(b->shadow + off, v, len);
 		finish_unit(A);
 	} else if (strcmp(op, "G") == 0) {
